@@ -97,6 +97,8 @@ class Oracle(object):
         self.seen = set()
         self.page = 1
         self.timeout_done = False
+        self.sent = False
+        self.sent_at_once = True     # C15 reads execute_async as __init__ immediately followed by send_request()
 
     def _add(self, prop, key, what, i):
         cls = key.split('.')[0]
@@ -124,6 +126,10 @@ class Oracle(object):
         w, f = self.w, self.w.f
         cl = H.cluster_mod()
         name = self.opname(op)
+        if op is not None and op[0] == 'send':
+            self.sent = True
+        if op is not None and op[0] == 'tick' and op[1] > 0 and not self.sent:
+            self.sent_at_once = False
         if op is not None and op[0] == 'nextpage' and enabled:
             self.page += 1
             self.timeout_done = False
@@ -156,7 +162,7 @@ class Oracle(object):
                           'every request answered / timeout fired, but no outcome was delivered to every pair', i)
         # ---- C15: in punctual histories (no live timer overdue) an unfinished fetch is at most T + 30 ms old
         T = w.cfg.get('timeout')
-        if self.punctual and T is not None and not (fr_set or fe_set):
+        if self.punctual and self.sent and self.sent_at_once and T is not None and not (fr_set or fe_set):
             if w.now > w.epoch_start + T + 30:
                 self._add('C15', 'unbounded.%s' % ('first-page' if self.page == 1 else 'later-page'),
                           'page %d fetch started at %d ms, timeout %d ms, still no outcome at %d ms and no timer pending'
@@ -218,7 +224,7 @@ def random_resp(rng, a):
     return ['resp', a, 'junk', None, None]
 
 
-def random_walk(rng, cfg, nsteps, punctual, illegal_p=0.05):
+def random_walk(rng, cfg, nsteps, punctual, illegal_p=0.05, resp_weight=3):
     """Walks the enabled operations of the real future.  -> ops"""
     w = H.World(cfg)
     ops = []
@@ -230,7 +236,7 @@ def random_walk(rng, cfg, nsteps, punctual, illegal_p=0.05):
             cand += [['send']] * 12
         else:
             for a in w.open_attempts():
-                cand += [random_resp(rng, a)] * 3
+                cand += [random_resp(rng, a)] * resp_weight
         due = w.due_timers()
         for k in due:
             cand += [['fire', k]] * 4
